@@ -50,7 +50,11 @@ def gen_hps(rng: random.Random, *, callables: float = 0.35,
             clip_none: float = 0.1) -> dict[str, Any]:
     def maybe(const: Any, cyc: Any) -> dict[str, Any]:
         if rng.random() < callables:
-            return cyc()
+            spec = cyc()
+            if spec.get('f') == 'cycle' and rng.random() < 0.3:
+                # same values, but read from state outside K-FAC
+                spec['f'] = 'ext'
+            return spec
         return {'c': const()}
 
     hps: dict[str, Any] = {}
@@ -64,6 +68,9 @@ def gen_hps(rng: random.Random, *, callables: float = 0.35,
         lambda: {'f': 'cycle',
                  'vals': [rng.choice([1, 2, 3]) for _ in range(
                      rng.randint(2, 3))]})
+    for k_ in ('factor_update_steps', 'inv_update_steps'):
+        if hps[k_].get('f') == 'ext':
+            hps[k_]['f'] = 'cycle'
     hps['damping'] = maybe(
         lambda: round(_loguniform(rng, 0.01, 1.0), 4),
         lambda: {'f': 'cycle',
@@ -204,6 +211,8 @@ def gen_ops(rng: random.Random, hps: dict[str, Any],
             op: dict[str, Any] = {'op': 'train', 'it': it}
             if rng.random() < 0.06:
                 op['zero'] = True
+            if not hook and rng.random() < 0.12:
+                op['extra_fwd'] = True
             if acc >= 2 and rng.random() < 0.15:
                 op['reset_after'] = rng.randint(0, acc - 2)
             ops.append(op)
@@ -250,7 +259,8 @@ def gen_train_plan(rng: random.Random, *, tier: str = 'quick',
             continue
         mspec = models.gen_model_spec(
             rng, zoo=zoo, max_layers=3 if tier == 'quick' else 5)
-        mon = monitors or {'read_factors': 0.5, 'memory': 0.5, 'twin': 0.25}
+        mon = monitors or {'read_factors': 0.5, 'memory': 0.5, 'twin': 0.25,
+                           'read_hps': 0.4}
         plan: dict[str, Any] = {
             'kind': 'train', 'world': world,
             'initialized': True if world > 1 else rng.random() < 0.5,
